@@ -155,6 +155,23 @@ fn boundary_patterns(w: usize) -> Vec<u64> {
         v.push((1u64 << (w - 1)) | b);
         v.push(((1u64 << (w - 1)) | b).wrapping_sub(1) & m);
     }
+    // fields wider than a machine word half: every pattern whose low 32 (and low 16) bits are zero, all ones or one,
+    // i.e. the places where a value handled in two words carries from one into the other
+    for half in [32usize, 16] {
+        if w > half {
+            let top = w - half;
+            let n: u64 = if top >= 13 { 4096 } else { 1u64 << top };
+            for j in 0..n {
+                // all high words when there are few, an even spread otherwise
+                let hi = if top >= 13 { ((j as u128 * ((1u128 << top) - 1)) / (n as u128 - 1)) as u64 } else { j };
+                let base = hi << half;
+                v.push(base & m);
+                v.push(base.wrapping_sub(1) & m);
+                v.push((base + 1) & m);
+                v.push((base | ((1u64 << half) - 1)) & m);
+            }
+        }
+    }
     v.sort();
     v.dedup();
     v
@@ -570,7 +587,7 @@ pub fn run(p: &Params) -> Outcome {
     let all_exh = FIELDS.iter().all(|f| f.len <= exhaustive_max);
     Outcome {
         ctx: total,
-        rule: format!("{} df! fields scanned from the tree; every pattern for w <= {}, boundaries + one-hot neighbourhoods + {} stratified samples for wider fields; 1059/1065/1230 bias codecs through one-entry frames; sequences of 2..6 fields through one assembler and one parser (related fields, neighbouring fields given equal real values where both grids hold them) compared with each field on its own; oracle: pattern == encode(decode(pattern)) (sign-magnitude negative zero -> zero), widths, exactly one absent pattern, finiteness; enumerated patterns are distinct by construction (counted exactly)", N_FIELDS_SCANNED, exhaustive_max, n_samples),
+        rule: format!("{} df! fields scanned from the tree; every pattern for w <= {}, boundaries + one-hot neighbourhoods + word-carry patterns (low 32 / low 16 bits all zero, all ones, one) + {} stratified samples for wider fields; 1059/1065/1230 bias codecs through one-entry frames; sequences of 2..6 fields through one assembler and one parser (related fields, neighbouring fields given equal real values where both grids hold them) compared with each field on its own; oracle: pattern == encode(decode(pattern)) (sign-magnitude negative zero -> zero), widths, exactly one absent pattern, finiteness; enumerated patterns are distinct by construction (counted exactly)", N_FIELDS_SCANNED, exhaustive_max, n_samples),
         exhaustive: all_exh,
         extra: json!({"fields_scanned": N_FIELDS_SCANNED, "fields_exhaustive": n_exh, "optional_fields_exhaustive": n_opt, "hook": "rtcm_rs::verif_hooks::dfs"}),
     }
